@@ -58,6 +58,14 @@ def generate(rng, tier="quick"):
     rest = [m for m in matrix if m not in fixed]
     rng.shuffle(rest)
     chosen = fixed + rest[:(3 if tier == "quick" else 7)]
+    nextra = rng.choice([0, 0, 1, 2])
+    extra = []
+    for _ in range(nextra):
+        u = rng.choice(sorted(world["docs"]))
+        names = sorted(world["docs"][u].get("definitions", {}))
+        extra.append(u + rng.choice(["", "#"]) if not names or rng.random() < 0.3
+                     else u + "#/definitions/" + rng.choice(names))
+    base["extra_validators"] = extra
     configs = []
     for cr, uj, rc in chosen:
         c = copy.deepcopy(base)
@@ -75,7 +83,7 @@ def generate(rng, tier="quick"):
         absolute += [mid, mid + "#", mid + "#/properties/type", mid + "#/properties"]
     absolute.append("http://sim.test/root/missing.json")
     refs = refs + absolute
-    nops = rng.randint(2, 12)
+    nops = rng.randint(2, 12 if tier == "quick" else 20)
     ninst = len(world["instances"])
     ops = []
     for _ in range(nops):
@@ -83,6 +91,7 @@ def generate(rng, tier="quick"):
         op = {"op": kind}
         if kind in ("is_valid", "exhaust", "validate", "take_close", "take_drop"):
             op["inst"] = rng.randrange(ninst)
+            op["v"] = rng.randrange(1 + nextra)
             if kind.startswith("take"):
                 op["k"] = rng.choice([0, 1, 1, 2, 3])
         elif kind == "resolve_from_url":
